@@ -767,7 +767,7 @@ pub fn try_factor(n: &Uint, a: Uint, b: Uint) -> Option<(Uint, Uint)> {
     // if a and b actually share a factor with n.
     if a + b != *n {
         let gcd = Integer::gcd(&Int::from_bits(*n), &Int::from_bits(a + b));
-        if gcd > Int::one() {
+        if gcd > Int::one() && gcd.to_bits() != *n {
             let p = gcd.to_bits();
             let q = n / p;
             assert!(p * q == *n);
